@@ -29,6 +29,8 @@ type hostileRun struct {
 	maxReads     uint64
 	maxReadsStep *h.Event
 	workFindings [][3]string
+	hostReads    func() uint64 // reads the host did outside the StateDB (chain headers), when the workload counts them
+	maxHostReads uint64
 }
 
 var boundaryOperands = func() []*uint256.Int {
@@ -39,8 +41,15 @@ var boundaryOperands = func() []*uint256.Int {
 
 // runHostile executes txs on one EVM with the per-instruction work monitor attached.
 func runHostile(w *h.World, env h.EnvSpec, txs []h.TxSpec, desc string, alloc bool, plan *h.AspectPlan) *hostileRun {
+	return runHostileWith(w, env, txs, desc, alloc, plan, nil)
+}
+
+func runHostileWith(w *h.World, env h.EnvSpec, txs []h.TxSpec, desc string, alloc bool, plan *h.AspectPlan, setup func(fs *h.ForkSession, hr *hostileRun)) *hostileRun {
 	fs := h.NewForkSession(w, env, h.ForkOpts{Debug: true, RecSteps: true, LightMem: true, JoinPoints: plan != nil, Plan: plan})
 	hr := &hostileRun{fs: fs, desc: desc}
+	if setup != nil {
+		setup(fs, hr)
+	}
 	fs.Proxy.ReadCap = readCap
 	var prev *h.Event
 	var prevReads, prevAlloc uint64
@@ -57,9 +66,22 @@ func runHostile(w *h.World, env h.EnvSpec, txs []h.TxSpec, desc string, alloc bo
 	}
 	var capAtOpen int   // an interval in which the event log itself had to grow is not measured
 	var endAlloc uint64 // sampled at the start of the next instruction callback, before the recorder's copies
+	// the first jump of a frame analyses the frame's code once (a bitmap of len(code)/8 bytes paid for by the
+	// code's own deposit / calldata / memory cost); every later jump of that frame must not
+	jumped := map[*avm.Contract]bool{}
+	var prevAllow, prevHost uint64
+	var jumpAlloc, jumpGas, jumpAllow, jumps uint64
 	closeStep := func(nextMemLen int) {
 		if prev == nil {
 			return
+		}
+		if hr.hostReads != nil {
+			if d := hr.hostReads() - prevHost; d > hr.maxHostReads {
+				hr.maxHostReads = d
+			}
+			if d := hr.hostReads() - prevHost; d > 257 {
+				hr.workFindings = append(hr.workFindings, [3]string{"host-reads", opLocus(prev), fmt.Sprintf("instruction %#x at pc %d made the host read %d chain headers for %d gas (BLOCKHASH can name at most the 256 most recent blocks)", prev.Op, prev.PC, d, prev.Cost)})
+			}
 		}
 		reads := fs.Proxy.Reads - prevReads
 		if reads > hr.maxReads {
@@ -73,8 +95,11 @@ func runHostile(w *h.World, env h.EnvSpec, txs []h.TxSpec, desc string, alloc bo
 			a := endAlloc - prevAlloc
 			// memory the instruction itself adds must be covered by its gas (>= 3 gas per 32 bytes); copies of
 			// memory that already existed before it (RETURN, LOG, call arguments) were paid for when it was expanded
-			if lim := uint64(64<<10) + 64*gas + 4*uint64(prev.MemLen); a > lim {
+			if lim := uint64(64<<10) + 64*gas + 4*uint64(prev.MemLen) + prevAllow; a > lim {
 				hr.workFindings = append(hr.workFindings, [3]string{"allocation", opLocus(prev), fmt.Sprintf("instruction %#x at pc %d allocated %d bytes for %d gas with %d bytes of memory before it (bound 64KiB + 64*gas + 4*mem = %d)", prev.Op, prev.PC, a, gas, prev.MemLen, lim)})
+			}
+			if prev.Op == h.JUMP || prev.Op == h.JUMPI {
+				jumpAlloc, jumpGas, jumpAllow, jumps = jumpAlloc+a, jumpGas+gas, jumpAllow+prevAllow, jumps+1
 			}
 		}
 		prev = nil
@@ -83,6 +108,14 @@ func runHostile(w *h.World, env h.EnvSpec, txs []h.TxSpec, desc string, alloc bo
 	fs.Rec.OnStep = func(e *h.Event, scope *avm.ScopeContext) {
 		closeStep(e.MemLen)
 		// open the next instruction AFTER the recorder's own copies were made
+		prevAllow = 0
+		if (e.Op == h.JUMP || e.Op == h.JUMPI) && scope != nil && scope.Contract != nil && !jumped[scope.Contract] {
+			jumped[scope.Contract] = true
+			prevAllow = uint64(len(scope.Contract.Code))/4 + 64
+		}
+		if hr.hostReads != nil {
+			prevHost = hr.hostReads()
+		}
 		prev = e
 		prevReads = fs.Proxy.Reads
 		fs.Proxy.ReadMark = fs.Proxy.Reads
@@ -104,6 +137,13 @@ func runHostile(w *h.World, env h.EnvSpec, txs []h.TxSpec, desc string, alloc bo
 		hr.irs = append(hr.irs, ir)
 		if ir.Panic != "" {
 			break
+		}
+	}
+	// jumps pay 8/10 gas and own no memory: summed over a run their allocation must stay within the same bound
+	// (catches a small per-jump cost that no single instruction's 64 KiB slack would show)
+	if alloc && jumps > 0 {
+		if lim := uint64(256<<10) + 64*jumpGas + jumpAllow; jumpAlloc > lim {
+			hr.workFindings = append(hr.workFindings, [3]string{"allocation-sum", "jumps", fmt.Sprintf("%d JUMP/JUMPI instructions allocated %d bytes in total for %d gas (bound 256KiB + 64*gas + one code analysis per frame = %d)", jumps, jumpAlloc, jumpGas, lim)})
 		}
 	}
 	return hr
@@ -557,6 +597,17 @@ func init() {
 			}
 			cs = append(cs, Case{Kind: "lenops"})
 			cs = append(cs, Case{Kind: "stdprecompiles"})
+			for _, f := range []h.Fork{h.Frontier, h.London, h.Shanghai, h.Cancun} {
+				for _, sz := range []int64{4096, 49152, 300_000, 1_000_000} {
+					if f >= h.Shanghai && sz > 49152 {
+						continue // (init code is limited to 49152 bytes from Shanghai on)
+					}
+					cs = append(cs, Case{Kind: "jumpcode", P: []int64{int64(f), sz, 1500}})
+				}
+				for _, height := range []int64{100, 258, 1000, 70000} {
+					cs = append(cs, Case{Kind: "blockhash", P: []int64{int64(f), height}})
+				}
+			}
 			return cs
 		},
 		Run: runC20,
@@ -656,6 +707,67 @@ func runC20(c Case, tier string) (res CaseResult) {
 				res.Count("std_precompile_calls_measured", 1)
 			}
 		}
+	case "jumpcode":
+		// code full of jumps: a loop of K jumps in front of a long tail, run as hash-less init code (top-level create,
+		// CREATE, CREATE2) and as deployed code; the one-off analysis of a frame's code is allowed, a per-jump cost is not
+		fork := h.Fork(c.P[0])
+		size := int(c.P[1])
+		loops := uint64(c.P[2])
+		// counter on the stack: PUSH loops; JUMPDEST; PUSH1 1; SWAP1; SUB; DUP1; PUSH1 dest; JUMPI; STOP
+		body := h.NewAsm().PushU(loops)
+		dest := uint64(len(body.Bytes()))
+		body.Op(h.JUMPDEST).PushU(1).Op(h.SWAP1, h.SUB, h.DUP1).PushU(dest).Op(h.JUMPI, h.STOP)
+		code := append(body.Bytes(), make([]byte, size-len(body.Bytes()))...)
+		for i := len(body.Bytes()); i < len(code); i++ {
+			code[i] = []byte{0x5b, 0x60, 0x00, 0x7f}[i%4] // JUMPDESTs, pushes: work for the analysis
+		}
+		for variant := 0; variant < 4; variant++ {
+			var w *h.World
+			var tx h.TxSpec
+			switch variant {
+			case 0: // top-level create
+				w = h.BaseWorld(nil)
+				tx = h.TxSpec{Entry: h.ECreate, From: h.Sender, Input: code, Gas: 20_000_000, Value: new(big.Int)}
+			case 1, 2: // CREATE / CREATE2 from a contract that copies its calldata into memory
+				a := h.NewAsm().Op(h.CALLDATASIZE).PushU(0).PushU(0).Op(h.CALLDATACOPY)
+				if variant == 1 {
+					a.Op(h.CALLDATASIZE).PushU(0).PushU(0).Op(h.CREATE, h.POP, h.STOP)
+				} else {
+					a.PushU(5).Op(h.CALLDATASIZE).PushU(0).PushU(0).Op(h.CREATE2, h.POP, h.STOP)
+				}
+				if variant == 2 && fork < h.Constantinople {
+					continue
+				}
+				w = h.BaseWorld([][]byte{a.Bytes()})
+				tx = h.TxSpec{Entry: h.ECall, From: h.Sender, To: h.ContractAddr(0), Input: code, Gas: 25_000_000, Value: new(big.Int)}
+			case 3: // deployed code (carries a code hash)
+				w = h.BaseWorld([][]byte{code})
+				tx = h.TxSpec{Entry: h.ECall, From: h.Sender, To: h.ContractAddr(0), Gas: 20_000_000, Value: new(big.Int)}
+			}
+			hr := runHostile(w, h.EnvSpec{Fork: fork}, []h.TxSpec{tx}, fmt.Sprintf("jump loop x%d in %d bytes of code, variant %d (0 create tx, 1 CREATE, 2 CREATE2, 3 deployed) on %s", loops, size, variant, fork), true, nil)
+			measure(hr, "jumpcode")
+			res.Count("jump_loop_runs", 1)
+		}
+	case "blockhash":
+		// BLOCKHASH served by the repository's own core.GetHashFn over a chain of counted headers
+		fork := h.Fork(c.P[0])
+		height := uint64(c.P[1])
+		a := h.NewAsm()
+		for _, k := range []uint64{0, 1, 2, 255, 256, 257, 258, 300, height / 2, height - 1, height, height + 1} {
+			a.PushU(k).Op(h.BLOCKHASH, h.POP)
+			a.PushU(k).Op(h.NUMBER, h.SUB, h.BLOCKHASH, h.POP)
+		}
+		a.Op(h.STOP)
+		var chain *h.CountingChain
+		hr := runHostileWith(h.BaseWorld([][]byte{a.Bytes()}), h.EnvSpec{Fork: fork, Number: height}, []h.TxSpec{{Entry: h.ECall, From: h.Sender, To: h.ContractAddr(0), Gas: 1_000_000, Value: new(big.Int)}},
+			fmt.Sprintf("BLOCKHASH of old, recent, current and future blocks at height %d on %s (core.GetHashFn over counted headers)", height, fork), false, nil, // (the mock chain's own allocations are not the VM's)
+			func(fs *h.ForkSession, hr *hostileRun) {
+				chain = fs.UseChainHashes(height)
+				hr.hostReads = func() uint64 { return chain.Reads }
+			})
+		measure(hr, "blockhash")
+		res.Max("header_reads_in_one_instruction", int64(hr.maxHostReads))
+		res.Count("blockhash_runs", 1)
 	case "lenops":
 		// every standard opcode taking a length, with lengths 2^10 .. 2^64
 		type lop struct {
